@@ -117,6 +117,10 @@ def operands():
     out.append(Opd('mat4x4', 'ndarray', lambda: np.arange(16.0).reshape(4, 4), tag='mat4x4'))
     out.append(Opd('vec5', 'ndarray', lambda: np.arange(5.0), tag='vec5'))
     out.append(Opd('mat5x2', 'ndarray', lambda: np.arange(10.0).reshape(5, 2), tag='mat5x2'))
+    # arrays of exactly one element (shapes (1,), (1,1), ()) and a one-element list: not scalars, not conformant
+    out.append(Opd('vec1', 'ndarray', lambda: np.array([2.0]), tag='vec1'))
+    out.append(Opd('mat1x1', 'ndarray', lambda: np.array([[2.0]]), tag='mat1x1'))
+    out.append(Opd('list1', 'list', lambda: [2.0], tag='vec1'))
     out.append(Opd('list3', 'list', lambda: [1.0, -2.0, 0.5], tag='vec3'))
     out.append(Opd('list2', 'list', lambda: [1.0, -2.0], tag='vec2'))
     out.append(Opd('list5', 'list', lambda: [1.0, 2, 3, 4, 5], tag='vec5'))
